@@ -62,8 +62,11 @@ class Condition(torch.nn.Module):
         raise NotImplementedError
 
     def _setup_data_functions(self, data_functions, sampler):
-        for fun in data_functions:
-            data_functions[fun] = UserFunction(data_functions[fun])
+        # work on an own dict, the one of the user may be shared with other
+        # conditions (and is used twice by the periodic condition)
+        data_functions = {
+            fun: UserFunction(data_functions[fun]) for fun in data_functions
+        }
         if isinstance(sampler, StaticSampler):
             # functions can be evaluated once
             for fun in data_functions:
